@@ -188,7 +188,7 @@ impl Property for C20 {
          prefix and common labels. Oracle per (arm, input): Ok(handle) whose descriptor equals the explicit constructor's field by \
          field (and whose collected bucket bounds equal the expected ones); a unique update through the handle is visible in gather() \
          of the targeted registry (the named one, or the default registry) and not in the other; invoking the arm again evaluates to \
-         Err; labels!/opts!/histogram_opts! values equal the explicitly built ones. Non-trivial: the input has >= 1 constant label or \
+         Err and leaves the first metric registered with its value; labels!/opts!/histogram_opts! values equal the explicitly built ones. Non-trivial: the input has >= 1 constant label or \
          >= 2 label names or non-default buckets or a registry with prefix/labels. Distinct = decoded choices."
     }
     fn assumptions(&self) -> Vec<&'static str> {
@@ -375,6 +375,17 @@ impl Property for C20 {
                     return fail("macro-ok-on-refused-registration", ctx("second invocation with the same input evaluated to Ok"));
                 }
                 Ok(Err(_)) => {}
+            }
+            // ... and, like the refused explicit call, leaves the metric registered before it where it is
+            match find(target, &tprefix, &fq) {
+                Some((v, _)) if v == amt as f64 => {}
+                got => {
+                    unregister(&handle);
+                    return fail(
+                        "refused-macro-disturbed-the-registered-metric",
+                        ctx(&format!("after a second, refused invocation the first metric reads {:?} in its registry (expected {})", got.map(|g| g.0), amt)),
+                    );
+                }
             }
             unregister(&handle);
             if find(target, &tprefix, &fq).is_some() {
